@@ -99,10 +99,11 @@ PROPS = {
     "C11": {
         "modules": ["contracts.c11_ports", "contracts.server_units", "contracts.dispatcher_units"],
         "unit_filter": ["Server._start_passive_server", "Server._start_passive_server#PIPE", "Server.pasv#SEQ", "Server.epsv#SEQ", "Server.dispatcher/finally", "Server.__init__"],
+        "extra": ["contracts.c11_ports.lean_lemma"],
         "level": "proof",
         "trusted_base": [T_PY, T_ENGINE, T_SOLVER, T_AIO, T_CONN, T_IND],
-        "assumptions": ["PriorityQueue modelled as a multiset of ports (priorities ignored: the ledger is about ports)"],
-        "not_decided": ["fairness of the retry order", "sockets CPython may leak when start_server itself is cancelled", "termination of the retry loop (|configured \\ viewed| decreases: not proved)"],
+        "assumptions": ["PriorityQueue modelled as a multiset of ports (priorities ignored: the ledger is about ports)", "termination of the retry loop: the per-iteration obligation (each retry views a configured port not viewed before; z3) + lean/RetryTerminates.lean (a strictly increasing chain of subsets of a finite set is finite; Lean 4 + Mathlib, re-checked on every run); the instance rest[p] <= configured[p] of the ghost's definition is assumed at the port taken"],
+        "not_decided": ["fairness of the retry order", "sockets CPython may leak when start_server itself is cancelled"],
         "explanation": "",
     },
     "C12": {
